@@ -230,11 +230,11 @@ class EmitBody(_Base):
             """Contract of an arbitrary downstream's update(x, who, metadata)."""
             g = I.st.ghost
             pre = g['_pre'][1]
-            if z3.is_app_of(z3.simplify(g['calls'].t), z3.Z3_OP_SEQ_EMPTY):
-                # before anything downstream has run, the node remembers the element it is delivering
-                I.oblige('remembers_current_value_before_the_first_downstream_runs',
-                         I.eq(I.get_attr(pre['self'], 'current_value'), pre['x']))
-                I.st.obligations[-1].props = ['C01']
+            # before anything downstream has run, the node remembers the element it is delivering (inside the loop rule `calls`
+            # is the arbitrary prefix already served: the obligation speaks about the empty prefix)
+            I.oblige('remembers_current_value_before_the_first_downstream_runs',
+                     z3.Implies(z3.Length(g['calls'].t) == 0, I.eq(I.get_attr(pre['self'], 'current_value'), pre['x'])))
+            I.st.obligations[-1].props = ['C01', 'C12']
             I.oblige('child_gets_same_element', I.eq(args[0], pre['x']))
             I.st.obligations[-1].props = ['C01']
             I.oblige('child_told_who_emitted', I.eq(kwargs['who'], pre['self']))
